@@ -85,9 +85,9 @@ def convert_expression_string_to_predicate(
         return Predicate.from_bool(True)
     converter = _ConversionVisitor(context, universe)
     predicate = tree.visit(converter)
-    assert isinstance(predicate, Predicate), (
-        "The grammar should guarantee that we get a predicate back at the top level."
-    )
+    if not isinstance(predicate, Predicate):
+        # The grammar also accepts bare values, e.g. "5" or "detector + 1".
+        raise InvalidQueryError(f"Expression '{expression}' is not a boolean expression.")
 
     return predicate
 
@@ -185,7 +185,10 @@ class _ConversionVisitor(TreeVisitor[_VisitorResult]):
     def visitIsIn(
         self, lhs: _VisitorResult, values: list[_VisitorResult], not_in: bool, node: Node
     ) -> _VisitorResult:
-        assert isinstance(lhs, _ColExpr), "LHS of IN guaranteed to be scalar by parser."
+        if not isinstance(lhs, _ColExpr):
+            # The grammar allows a parenthesized boolean expression or NULL
+            # on the left of IN.
+            raise InvalidQueryError(f"Left operand of IN is not a scalar value in '{node}'")
         predicates = [_convert_in_clause_to_predicate(lhs.value, rhs, node) for rhs in values]
         result = Predicate.from_bool(False).logical_or(*predicates)
         if not_in:
@@ -244,7 +247,14 @@ class _ConversionVisitor(TreeVisitor[_VisitorResult]):
         except ValueError:
             # int() raises for float-like strings
             numeric = float(value)
+        else:
+            if not -(2**63) <= numeric < 2**63:
+                # Would overflow the 64-bit integers used by the database.
+                raise InvalidQueryError(f"Integer literal {value} is out of range")
         return _make_literal(numeric)
+
+    def visitFunctionCall(self, name: str, args: list[_VisitorResult], node: Node) -> _VisitorResult:
+        raise InvalidQueryError(f"Unknown function '{name}' in expression '{node}'")
 
     def visitParens(self, expression: _VisitorResult, node: Node) -> _VisitorResult:
         return expression
